@@ -69,6 +69,12 @@ static void p_idlist(const char *name, t_bidib_id_list_query q) {
 	bidib_free_id_list_query(q);
 }
 
+static void p_idlist_keep(const char *name, t_bidib_id_list_query q) {
+	fprintf(vout, "\"%s\":[", name);
+	for (size_t i = 0; i < q.length; i++) { if (i) fputc(',', vout); p_sid(q.ids ? q.ids[i] : NULL); }
+	fputc(']', vout);
+}
+
 #define OPEN(name) fprintf(vout, "\"%s\":[", name)
 #define SEP(i) if (i) fputc(',', vout)
 
@@ -191,6 +197,125 @@ static void proj_aspects(const char *kind, const char *id) {
 	else if (!strcmp(kind, "signal")) p_idlist("aspects", bidib_get_signal_aspects(id));
 	else p_idlist("aspects", bidib_get_peripheral_aspects(id));
 	fputc('}', vout);
+}
+
+/* ---------------------------------------------------------------------------------------------------------------
+ * Bundles (C17): the snapshot plus the result of every single-entity getter for every id of the snapshot and for an
+ * unknown id and NULL, taken at one quiescent moment and KEPT (not freed).  "bundle print k" renders bundle k again
+ * later - after state changes, after bidib_stop - and "bundle free k" hands every kept result to its free function
+ * exactly once.
+ */
+#define MAXB 16
+typedef struct {
+	bool used;
+	t_bidib_track_state s;
+	size_t npt, nsg;
+	t_bidib_unified_accessory_state_query *pt, *sg, upt[2], usg[2];
+	t_bidib_peripheral_state_query *per, uper[2];
+	t_bidib_segment_state_query *seg, useg[2];
+	t_bidib_reverser_state_query *rev, urev[2];
+	t_bidib_train_state_query *trn, utrn[2];
+	t_bidib_train_position_query *pos, upos[2];
+	t_bidib_booster_state_query *bst, ubst[2];
+	t_bidib_track_output_state_query *to, uto[2];
+	t_bidib_id_list_query boards, trains;
+} bundle;
+static bundle bundles[MAXB];
+static const char *UNK[2] = { "nosuch-id", NULL };
+
+static const char *pt_id(bundle *b, size_t i) { return i < b->s.points_board_count ? b->s.points_board[i].id : b->s.points_dcc[i - b->s.points_board_count].id; }
+static const char *sg_id(bundle *b, size_t i) { return i < b->s.signals_board_count ? b->s.signals_board[i].id : b->s.signals_dcc[i - b->s.signals_board_count].id; }
+
+static int bundle_take(void) {
+	int k = 0; while (k < MAXB && bundles[k].used) k++;
+	if (k == MAXB) return -1;
+	bundle *b = &bundles[k]; memset(b, 0, sizeof *b); b->used = true;
+	b->s = bidib_get_state();
+	b->npt = b->s.points_board_count + b->s.points_dcc_count; b->nsg = b->s.signals_board_count + b->s.signals_dcc_count;
+	b->pt = calloc(b->npt + 1, sizeof *b->pt); b->sg = calloc(b->nsg + 1, sizeof *b->sg);
+	b->per = calloc(b->s.peripherals_count + 1, sizeof *b->per); b->seg = calloc(b->s.segments_count + 1, sizeof *b->seg);
+	b->rev = calloc(b->s.reversers_count + 1, sizeof *b->rev); b->trn = calloc(b->s.trains_count + 1, sizeof *b->trn);
+	b->pos = calloc(b->s.trains_count + 1, sizeof *b->pos); b->bst = calloc(b->s.booster_count + 1, sizeof *b->bst);
+	b->to = calloc(b->s.track_outputs_count + 1, sizeof *b->to);
+	for (size_t i = 0; i < b->npt; i++) b->pt[i] = bidib_get_point_state(pt_id(b, i));
+	for (size_t i = 0; i < b->nsg; i++) b->sg[i] = bidib_get_signal_state(sg_id(b, i));
+	for (size_t i = 0; i < b->s.peripherals_count; i++) b->per[i] = bidib_get_peripheral_state(b->s.peripherals[i].id);
+	for (size_t i = 0; i < b->s.segments_count; i++) b->seg[i] = bidib_get_segment_state(b->s.segments[i].id);
+	for (size_t i = 0; i < b->s.reversers_count; i++) b->rev[i] = bidib_get_reverser_state(b->s.reversers[i].id);
+	for (size_t i = 0; i < b->s.trains_count; i++) { b->trn[i] = bidib_get_train_state(b->s.trains[i].id); b->pos[i] = bidib_get_train_position(b->s.trains[i].id); }
+	for (size_t i = 0; i < b->s.booster_count; i++) b->bst[i] = bidib_get_booster_state(b->s.booster[i].id);
+	for (size_t i = 0; i < b->s.track_outputs_count; i++) b->to[i] = bidib_get_track_output_state(b->s.track_outputs[i].id);
+	for (int u = 0; u < 2; u++) {
+		b->upt[u] = bidib_get_point_state(UNK[u]); b->usg[u] = bidib_get_signal_state(UNK[u]); b->uper[u] = bidib_get_peripheral_state(UNK[u]);
+		b->useg[u] = bidib_get_segment_state(UNK[u]); b->urev[u] = bidib_get_reverser_state(UNK[u]); b->utrn[u] = bidib_get_train_state(UNK[u]);
+		b->upos[u] = bidib_get_train_position(UNK[u]); b->ubst[u] = bidib_get_booster_state(UNK[u]); b->uto[u] = bidib_get_track_output_state(UNK[u]);
+	}
+	b->boards = bidib_get_boards(); b->trains = bidib_get_trains();
+	return k;
+}
+
+static void p_acc_query(const char *id, const t_bidib_unified_accessory_state_query *q) {
+	fputs("{\"id\":", vout); p_sid(id); fprintf(vout, ",\"known\":%u,\"type\":%d", BV(q->known), BV(q->known) ? (int) q->type : 0);
+	if (BV(q->known) && q->type == BIDIB_ACCESSORY_BOARD) { fputc(',', vout); p_board_acc(&q->board_accessory_state); }
+	else if (BV(q->known)) { fputc(',', vout); p_dcc_acc(&q->dcc_accessory_state); }
+	else fprintf(vout, ",\"pnull\":%d", q->board_accessory_state.state_id == NULL);
+	fputc('}', vout);
+}
+
+static void bundle_print(int k) {
+	bundle *b = &bundles[k];
+	fputs("{\"snap\":{", vout); snapshot(&b->s); fputs("},\"sg\":{", vout);
+	OPEN("point"); for (size_t i = 0; i < b->npt; i++) { SEP(i); p_acc_query(pt_id(b, i), &b->pt[i]); } fputs("],", vout);
+	OPEN("signal"); for (size_t i = 0; i < b->nsg; i++) { SEP(i); p_acc_query(sg_id(b, i), &b->sg[i]); } fputs("],", vout);
+	OPEN("per"); for (size_t i = 0; i < b->s.peripherals_count; i++) { SEP(i); fputs("{\"id\":", vout); p_sid(b->s.peripherals[i].id); fprintf(vout, ",\"known\":%u,", BV(b->per[i].available)); p_periph(&b->per[i].data); fputc('}', vout); } fputs("],", vout);
+	OPEN("seg"); for (size_t i = 0; i < b->s.segments_count; i++) { SEP(i); fputs("{\"id\":", vout); p_sid(b->s.segments[i].id); fprintf(vout, ",\"known\":%u,", BV(b->seg[i].known)); p_segment(&b->seg[i].data); fputc('}', vout); } fputs("],", vout);
+	OPEN("rev"); for (size_t i = 0; i < b->s.reversers_count; i++) { SEP(i); fputs("{\"id\":", vout); p_sid(b->s.reversers[i].id); fprintf(vout, ",\"known\":%u,", BV(b->rev[i].available)); p_reverser(&b->rev[i].data); fputc('}', vout); } fputs("],", vout);
+	OPEN("trn"); for (size_t i = 0; i < b->s.trains_count; i++) { SEP(i); fputs("{\"id\":", vout); p_sid(b->s.trains[i].id); fprintf(vout, ",\"known\":%u,", BV(b->trn[i].known)); p_train(&b->trn[i].data); fputc('}', vout); } fputs("],", vout);
+	OPEN("pos"); for (size_t i = 0; i < b->s.trains_count; i++) { SEP(i); fputs("{\"id\":", vout); p_sid(b->s.trains[i].id); fprintf(vout, ",\"left\":%u,\"segs\":[", BV(b->pos[i].orientation_is_left));
+		for (size_t j = 0; j < b->pos[i].length; j++) { SEP(j); p_sid(b->pos[i].segments[j]); } fputs("]}", vout); } fputs("],", vout);
+	OPEN("bst"); for (size_t i = 0; i < b->s.booster_count; i++) { SEP(i); fputs("{\"id\":", vout); p_sid(b->s.booster[i].id); fprintf(vout, ",\"known\":%u,", BV(b->bst[i].known)); p_booster(&b->bst[i].data); fputc('}', vout); } fputs("],", vout);
+	OPEN("to"); for (size_t i = 0; i < b->s.track_outputs_count; i++) { SEP(i); fputs("{\"id\":", vout); p_sid(b->s.track_outputs[i].id); fprintf(vout, ",\"known\":%u,\"cs\":%d}", BV(b->to[i].known), (int) b->to[i].cs_state); } fputs("]},", vout);
+	/* unknown id / NULL: known flags, pointer members, counts - everything a caller may look at before freeing */
+	fputs("\"unk\":[", vout);
+	for (int u = 0; u < 2; u++) {
+		SEP(u);
+		fprintf(vout, "{\"pt\":%u,\"ptp\":%d,\"sg\":%u,\"sgp\":%d,\"per\":%u,\"perp\":%d,\"seg\":%u,\"segp\":%d,\"segn\":%lu,\"rev\":%u,\"revp\":%d,"
+		        "\"trn\":%u,\"trnp\":%d,\"trnn\":%lu,\"pos\":%lu,\"posp\":%d,\"bst\":%u,\"to\":%u}",
+		        BV(b->upt[u].known), b->upt[u].board_accessory_state.state_id == NULL, BV(b->usg[u].known), b->usg[u].board_accessory_state.state_id == NULL,
+		        BV(b->uper[u].available), b->uper[u].data.state_id == NULL, BV(b->useg[u].known), b->useg[u].data.dcc_addresses == NULL,
+		        (unsigned long) b->useg[u].data.dcc_address_cnt, BV(b->urev[u].available), b->urev[u].data.state_id == NULL,
+		        BV(b->utrn[u].known), b->utrn[u].data.peripherals == NULL, (unsigned long) b->utrn[u].data.peripheral_cnt,
+		        (unsigned long) b->upos[u].length, b->upos[u].segments == NULL, BV(b->ubst[u].known), BV(b->uto[u].known));
+	}
+	fputs("],", vout);
+	p_idlist_keep("boards", b->boards); fputc(',', vout); p_idlist_keep("trains", b->trains);
+	fputc('}', vout);
+}
+
+static void bundle_free(int k) {
+	bundle *b = &bundles[k];
+	for (size_t i = 0; i < b->npt; i++) bidib_free_unified_accessory_state_query(b->pt[i]);
+	for (size_t i = 0; i < b->nsg; i++) bidib_free_unified_accessory_state_query(b->sg[i]);
+	for (size_t i = 0; i < b->s.peripherals_count; i++) bidib_free_peripheral_state_query(b->per[i]);
+	for (size_t i = 0; i < b->s.segments_count; i++) bidib_free_segment_state_query(b->seg[i]);
+	for (size_t i = 0; i < b->s.reversers_count; i++) bidib_free_reverser_state_query(b->rev[i]);
+	for (size_t i = 0; i < b->s.trains_count; i++) { bidib_free_train_state_query(b->trn[i]); bidib_free_train_position_query(b->pos[i]); }
+	for (int u = 0; u < 2; u++) {
+		bidib_free_unified_accessory_state_query(b->upt[u]); bidib_free_unified_accessory_state_query(b->usg[u]);
+		bidib_free_peripheral_state_query(b->uper[u]); bidib_free_segment_state_query(b->useg[u]); bidib_free_reverser_state_query(b->urev[u]);
+		bidib_free_train_state_query(b->utrn[u]); bidib_free_train_position_query(b->upos[u]);
+	}
+	bidib_free_id_list_query(b->boards); bidib_free_id_list_query(b->trains);
+	free(b->pt); free(b->sg); free(b->per); free(b->seg); free(b->rev); free(b->trn); free(b->pos); free(b->bst); free(b->to);
+	bidib_free_track_state(b->s);
+	b->used = false;
+}
+
+void proj_bundle(const char *what, int k) {
+	if (!strcmp(what, "take")) { k = bidib_running ? bundle_take() : -1; fprintf(vout, "{\"k\":%d,\"b\":", k); if (k >= 0) bundle_print(k); else fputs("null", vout); fputc('}', vout); }
+	else if (!strcmp(what, "print") && k >= 0 && k < MAXB && bundles[k].used) { fprintf(vout, "{\"k\":%d,\"b\":", k); bundle_print(k); fputc('}', vout); }
+	else if (!strcmp(what, "free") && k >= 0 && k < MAXB && bundles[k].used) { bundle_free(k); fprintf(vout, "{\"k\":%d}", k); }
+	else fputs("null", vout);
 }
 
 /* single-entity getter by name; the result is printed with the same field names as the snapshot, then freed once */
